@@ -230,6 +230,9 @@ impl PropImpl for C10 {
          layouts L0 canonical, L1 spaces/tabs/newlines around ',' and '|', L2 spaces/tabs between the tokens of a relation (incl. before ')'); (E) one relation x all part subsets x 5 operators x \
          3 versions x 3 fixed layouts x 3 contexts (5184). Non-trivial: >= 2 entries or alternatives, or a relation with >= 2 optional parts. Distinct by text hash.".into()
     }
+    fn expected_labels(&self) -> Vec<&'static str> {
+        vec!["layout:L0", "layout:L1", "layout:L2", "has:substvar", "has:empty-entry", "has:alternatives", "part:archqual", "part:version", "part:epoch", "part:tilde", "part:architectures", "part:negated-architecture", "part:profiles", "part:several-profile-groups", "part:multi-term-profile-group", "op:<<", "op:<=", "op:=", "op:>=", "op:>>", "has:newline", "has:tab"]
+    }
     fn budget(&self, tier: Tier) -> Budget {
         Budget { cases_per_lane: if tier == Tier::Quick { 15000 } else { 60_000 }, tape_max: 500, cpu_s: 10 }
     }
